@@ -149,6 +149,19 @@ def check_literals(ctx: Ctx, prop_rule: str, env: EnvA, sl, root, lits, what: st
                        construct=f"{sl.fi.qualname}:{lit.name}:not-conjoined-with:{lit.conj_with}")
         if leaf is None:
             continue
+        if lit.kind == "cmp" and leaf.cmp() is not None:
+            # term polarity: every quantity of the reference inequality pushes the admit polynomial in the reference direction
+            # (a flipped sign of ONE term, or a flag used with the wrong polarity, keeps the cell sets of the two sides intact)
+            pol = nf.polarity(leaf.cmp()[0].to_sym())
+            exp = lit.expected_signs()
+            # sign 0 = dependence through a function whose direction the analysis does not know: undecided, never reported
+            wrong = {k: sorted(v) for k, v in pol.items() if k in exp and not ((v - {0}) <= exp[k])}
+            pid = "C01.q" if direction == "looser" else "C05.d"
+            ctx.ob(pid, inst + ":term-signs", not wrong, sl.where,
+                   f"{show_leaf(leaf)}: " + ("every term enters with the reference sign" if not wrong else
+                                             "; ".join(f"`{k}` enters with sign(s) {v}, the constraint needs {sorted(exp[k])}" for k, v in wrong.items()) +
+                                             " -- a term of the inequality was flipped / a flag is used with the wrong polarity, so the constraint admits infeasible or hides feasible actions"),
+                   construct=f"{sl.fi.qualname}:{lit.name}:term-sign:" + ",".join(sorted(wrong)))
         if lit.kind == "cmp" and lit.strict is not None:
             # a literal may occur several times; every occurrence in required position counts
             worst, why = "equal", ""
